@@ -1,6 +1,7 @@
 /- driver protocol for Model/Writer.lean (C19, C20) -/
 import MdVerif.Model.Writer
 import MdVerif.Model.FileSys
+import MdVerif.Model.JoinDiscard
 namespace MdVerif.Driver.WriterP
 open MdVerif.Writer
 
@@ -49,6 +50,11 @@ def handleWriter : List String → String
       let r := MdVerif.FileSys.save (valid == "1") p (force == "1") (d : MdVerif.FileSys.Dir String) c
       s!"err={if r.2 then 1 else 0} " ++ ",".intercalate (r.1.map (fun e => s!"{e.1}={e.2}"))
     | _, _ => "bad-op"
+  -- joindiscard <ids;ids;…>: join(discard_overlapping_frames=True) of pieces given as frame identifiers (- = no frames); frames overlap when equal
+  | ["joindiscard", pieces] =>
+    match (pieces.splitOn ";").mapM (fun (w : String) => if w == "-" then some [] else (w.splitOn ",").mapM (fun (x : String) => x.toNat?)) with
+    | some ps => showNats (MdVerif.JoinDiscard.joinDiscard (fun x y => x == y) ps)
+    | none => "bad-op"
   | ["save", ex, force] =>
     let r := save (⟨if ex == "1" then some 0 else none⟩ : FS Nat) (force == "1") 1
     s!"raised={r.2} content={match r.1.file with | none => "none" | some 0 => "old" | some _ => "new"}"
